@@ -134,9 +134,10 @@ def random_spec(rnd, with_marks=True, gen_expr=None):
     nblock = rnd.randint(2, 5)
     blocks = ["b%d" % i for i in range(nblock)]
     inlines = ["text"] + ["i%d" % i for i in range(rnd.randint(0, 2))]
-    groups_b = ["gblock"] if rnd.random() < 0.7 else []
+    # group names that contain one another (and a mark name): membership is by whole token
+    groups_b = (["gblock"] + (["gblockx"] if rnd.random() < 0.4 else [])) if rnd.random() < 0.7 else []
     mnames = ["m%d" % i for i in range(rnd.randint(2, 5))] if with_marks else []
-    mgroups = ["mg"] if mnames and rnd.random() < 0.5 else []
+    mgroups = rnd.sample(["mg", "mgx", "xmg", "g", "xm1"], rnd.randint(1, 3)) if mnames and rnd.random() < 0.5 else []
     marks = {}
     for m in mnames:
         s = {}
@@ -151,19 +152,23 @@ def random_spec(rnd, with_marks=True, gen_expr=None):
         if rnd.random() < 0.25:
             s["inclusive"] = False
         if mgroups and rnd.random() < 0.4:
-            s["group"] = "mg"
+            s["group"] = " ".join(rnd.sample(mgroups, rnd.randint(1, min(2, len(mgroups)))))
         if rnd.random() < 0.3:
             s["attrs"] = {"k": ({"default": 1} if rnd.random() < 0.5 else {})}
+            if rnd.random() < 0.3:
+                s["attrs"] = {"d": {"default": None}, **s["attrs"]}
         marks[m] = s
-    if mgroups and not any(s.get("group") for s in marks.values()):
-        marks[mnames[0]]["group"] = "mg"
+    for gname in mgroups:
+        if not any(gname in s.get("group", "").split(" ") for s in marks.values()):
+            tgt = marks[rnd.choice(mnames)]
+            tgt["group"] = (tgt.get("group", "") + " " + gname).strip()
 
     nodes = {}
     textblocks = []
     for i, b in enumerate(blocks):
         s = {}
         if groups_b and rnd.random() < 0.7:
-            s["group"] = "gblock"
+            s["group"] = " ".join(rnd.sample(groups_b, rnd.randint(1, len(groups_b))))
         kind = rnd.random()
         if i == 0 or kind < 0.45:
             # textblock
@@ -176,12 +181,16 @@ def random_spec(rnd, with_marks=True, gen_expr=None):
             s["_container"] = True
         if rnd.random() < 0.25:
             s["attrs"] = {"a": ({"default": rnd.choice(_ATTR_VALUES)} if rnd.random() < 0.6 else {})}
+            if rnd.random() < 0.4:
+                # several attributes, with and without default, in either declaration order
+                more = {"z": ({"default": rnd.choice(_ATTR_VALUES)} if rnd.random() < 0.5 else {})}
+                s["attrs"] = {**more, **s["attrs"]} if rnd.random() < 0.5 else {**s["attrs"], **more}
         if rnd.random() < 0.15:
             s["isolating"] = True
         if rnd.random() < 0.15:
             s["defining"] = True
         nodes[b] = s
-    names_b = blocks + [g for g in groups_b if any(nodes[b].get("group") for b in blocks)]
+    names_b = blocks + [g for g in groups_b if any(g in nodes[b].get("group", "").split(" ") for b in blocks)]
     for b in blocks:
         if nodes[b].pop("_container", None):
             nodes[b]["content"] = ast_print(random_ast(rnd, names_b, rnd.randint(1, 5)), rnd)
@@ -203,6 +212,8 @@ def random_spec(rnd, with_marks=True, gen_expr=None):
             s = {"inline": True, "group": "inline"}
             if rnd.random() < 0.3:
                 s["attrs"] = {"a": ({"default": 1} if rnd.random() < 0.5 else {})}
+                if rnd.random() < 0.4:
+                    s["attrs"] = {"d": {"default": "v"}, **s["attrs"]}
             nodes[n] = s
     doc = {"content": ast_print(random_ast(rnd, names_b, rnd.randint(1, 5)), rnd)}
     if mnames and rnd.random() < 0.2:
@@ -358,12 +369,16 @@ def mark_schema(rnd, tries=20):
     several textblock types that allow different subsets of them, an inline leaf."""
     for _ in range(tries):
         names = ["m%d" % i for i in range(rnd.randint(3, 4))]
+        # mark groups whose names contain one another / a mark name (membership is by token)
+        groups = rnd.sample(["col", "bgcol", "c", "xm1", "m"], rnd.randint(1, 3)) if rnd.random() < 0.5 else []
         marks = {}
         for nm in names:
             sp = {}
+            if groups and rnd.random() < 0.6:
+                sp["group"] = " ".join(rnd.sample(groups, rnd.randint(1, min(2, len(groups)))))
             r = rnd.random()
             if r < 0.55:
-                sp["excludes"] = " ".join(rnd.sample(names, rnd.randint(1, 2)))
+                sp["excludes"] = " ".join(rnd.sample(names + groups, rnd.randint(1, 2)))
             elif r < 0.65:
                 sp["excludes"] = ""
             elif r < 0.72:
@@ -373,6 +388,10 @@ def mark_schema(rnd, tries=20):
             if rnd.random() < 0.25:
                 sp["attrs"] = {"k": {"default": 1}}
             marks[nm] = sp
+        groups = [g_ for g_ in groups if any(g_ in m_.get("group", "").split(" ") for m_ in marks.values())]
+        for m_ in marks.values():
+            if "excludes" in m_ and m_["excludes"] not in ("", "_"):
+                m_["excludes"] = " ".join(t_ for t_ in m_["excludes"].split(" ") if t_ in names or t_ in groups) or names[0]
         nodes = {"doc": {"content": "block+"}, "text": {"group": "inline"}, "i": {"inline": True, "group": "inline"}}
         for j in range(rnd.randint(2, 4)):
             sp = {"content": "inline*", "group": "block"}
@@ -380,7 +399,7 @@ def mark_schema(rnd, tries=20):
             if r < 0.3:
                 sp["marks"] = "_"
             elif r < 0.75:
-                sp["marks"] = " ".join(rnd.sample(names, rnd.randint(1, len(names) - 1)))
+                sp["marks"] = " ".join(rnd.sample(names + groups, rnd.randint(1, len(names) - 1)))
             elif r < 0.85:
                 sp["marks"] = ""
             nodes["p%d" % j] = sp
@@ -411,9 +430,12 @@ def wrap_schema(rnd, tries=30):
             a, b = rnd.choice(pool), rnd.choice(pool)
             sp = {"content": rnd.choice(_WRAP_TEMPLATES).format(a=a, b=b)}
             r_ = rnd.random()
-            if r_ < 0.15:
+            if r_ < 0.1:
                 sp["attrs"] = {"q": {}}
-            elif r_ < 0.35:
+            elif r_ < 0.2:
+                # a required attribute declared after / before one with a default
+                sp["attrs"] = {"d": {"default": 1}, "q": {}} if rnd.random() < 0.5 else {"q": {}, "d": {"default": 1}}
+            elif r_ < 0.4:
                 sp["attrs"] = {"q": {"default": None}}
             nodes[c] = sp
         a, b = rnd.choice(conts), rnd.choice(conts)
